@@ -1553,6 +1553,9 @@ impl CanonicalizeContext {
 			if following_siblings.is_empty() {
 				return None;
 			}
+			if ELEMENTS_WITH_FIXED_NUMBER_OF_CHILDREN.contains(name(&get_parent(leaf))) {
+				return None;	// the sibling is a different argument (e.g., script) -- merging would leave the parent a child short
+			}
 
 			let following_sibling = as_element(following_siblings[0]);
 			let following_sibling_name = name(&following_sibling);
@@ -1587,6 +1590,9 @@ impl CanonicalizeContext {
 			let following_siblings = leaf.following_siblings();
 			if following_siblings.is_empty() {
 				return None;
+			}
+			if ELEMENTS_WITH_FIXED_NUMBER_OF_CHILDREN.contains(name(&get_parent(leaf))) {
+				return None;	// the sibling is a different argument (e.g., denominator) -- merging would leave the parent a child short
 			}
 
 			let following_sibling = as_element(following_siblings[0]);
